@@ -167,6 +167,21 @@ Theorem C12_taxa_equivariant : forall S geno geno1 geno' geno1' (pi : nat -> nat
 Proof. exact taxa_equivariant. Qed.
 Print Assumptions C12_taxa_equivariant.
 
+(** every covariance block is symmetric in the two traits when the D tables are symmetric (they are functions of |x_i - x_j|) *)
+Theorem C12_trait_symmetric : forall S t1 t2 g1 g2 g3 g4, mem_ok (s_mem S) -> D_symmetric S ->
+  twoway_low S t1 t2 g1 g2 == twoway_low S t2 t1 g1 g2 /\
+  threeway_low S t1 t2 g1 g2 g3 == threeway_low S t2 t1 g1 g2 g3 /\
+  quad_low S t1 t2 g1 g2 g3 g4 == quad_low S t2 t1 g1 g2 g3 g4.
+Proof. exact trait_symmetric. Qed.
+Print Assumptions C12_trait_symmetric.
+
+(** on the ln2/2 grid used by the exact correspondence cases, the model's recombination fractions of a sorted linkage group are the
+    chain fractions [rpair] of its gap vector: the hypothesis of C12_twoway_nself0_exact is what the shards evaluate *)
+Theorem C12_r_ln2_is_chain : forall pos i j, nondecreasing pos -> (i < length pos)%nat -> (j < length pos)%nat ->
+  r_ln2 pos i j == rpair (gaps_ln2 pos) i j.
+Proof. exact r_ln2_is_chain. Qed.
+Print Assumptions C12_r_ln2_is_chain.
+
 (** ** genic = genetic with linkage ignored: only the i = j terms, whose D(r = 0) is 1 at every depth *)
 Theorem C12_genic_twoway : forall u p tr gA gB, allele01 gA -> allele01 gB ->
   genic_pair u p tr (tafreq gA gA) (tafreq gB gB) ==
